@@ -142,49 +142,104 @@ theorem osdd_dimension_checked : ∀ a ∈ osddTable, ∀ b ∈ osddTable, a.dim
 example : ∃ a ∈ osddTable, ∃ b ∈ osddTable, a.dim = b.dim ∧ a.code ≠ b.code := by decide +kernel
 example : ∃ a ∈ osddTable, ∃ b ∈ osddTable, a.dim ≠ b.dim := by decide +kernel
 
-/-! ## Array forms = element-wise scalar form -/
+/-! ## Array forms = element-wise scalar form, refusal included -/
 
-/-- `convert_array` (copying) is `map` of the scalar `_convert` (over ℚ; the offset-free branch multiplies by the
-pre-divided factor, which is the same number exactly but not in floating point). -/
+/-- `convert_array` (copying): refused exactly when the scalar `convert` is refused (different dimensions), otherwise
+`map` of the scalar `_convert` (over ℚ; the offset-free branch multiplies by the pre-divided factor, which is the same
+number exactly but not in floating point). -/
 theorem convertArray_eq_map (xs : List ℚ) (a b : Unit ℚ) :
-    convertArray xs a b = xs.map (fun x => convertRaw x a b) := by
-  unfold convertArray convertRaw
-  split
-  · rfl
-  · apply List.map_congr_left; intro x _; rw [mul_div_assoc]
+    convertArray xs a b =
+      if a.dim = b.dim then .ok (xs.map (fun x => convertRaw x a b)) else .error .unitsDimension := by
+  unfold convertArray
+  by_cases hd : a.dim = b.dim
+  · rw [(sameDimension_iff a b).2 hd]
+    simp only [Bool.not_true, Bool.false_eq_true, if_false, hd, if_true]
+    unfold convertRaw
+    split
+    · rfl
+    · congr 1; apply List.map_congr_left; intro x _; rw [mul_div_assoc]
+  · have : sameDimension a b = false := by rw [← Bool.not_eq_true, sameDimension_iff]; exact hd
+    simp [this, hd]
 
-/-- `convert_array_inplace` leaves `map` of the scalar `_convert` in the array. -/
+/-- `convert_array_inplace`: refused under the same condition, otherwise leaves `map` of the scalar `_convert`. -/
 theorem convertArrayInplace_eq_map (xs : List ℚ) (a b : Unit ℚ) :
-    convertArrayInplace xs a b = xs.map (fun x => convertRaw x a b) := by
-  unfold convertArrayInplace convertRaw
-  split
-  · simp only [List.map_map]; rfl
-  · apply List.map_congr_left; intro x _; rw [mul_div_assoc]
+    convertArrayInplace xs a b =
+      if a.dim = b.dim then .ok (xs.map (fun x => convertRaw x a b)) else .error .unitsDimension := by
+  unfold convertArrayInplace
+  by_cases hd : a.dim = b.dim
+  · rw [(sameDimension_iff a b).2 hd]
+    simp only [Bool.not_true, Bool.false_eq_true, if_false, hd, if_true]
+    unfold convertRaw
+    split
+    · simp only [List.map_map]; rfl
+    · congr 1; apply List.map_congr_left; intro x _; rw [mul_div_assoc]
+  · have : sameDimension a b = false := by rw [← Bool.not_eq_true, sameDimension_iff]; exact hd
+    simp [this, hd]
 
-example : convertArray [0, 100] exDegC exDegF = [32, 212] := by decide +kernel
-example : convertArrayInplace [12, 24] exFeet exInch = [144, 288] := by decide +kernel
+/-- **Array result = the scalar results, element by element; error iff the scalar conversion errors.** -/
+theorem array_elementwise (xs : List ℚ) (a b : Unit ℚ) :
+    (a.dim = b.dim →
+      ∃ ys, convertArray xs a b = .ok ys ∧ convertArrayInplace xs a b = .ok ys ∧ ys.length = xs.length ∧
+        ∀ (i : Nat) (h : i < xs.length) (h' : i < ys.length), convert xs[i] a b = .ok ys[i]) ∧
+    (a.dim ≠ b.dim →
+      convertArray xs a b = .error .unitsDimension ∧ convertArrayInplace xs a b = .error .unitsDimension ∧
+        ∀ x, convert x a b = .error .unitsDimension) := by
+  constructor
+  · intro hd
+    refine ⟨xs.map (fun x => convertRaw x a b), ?_, ?_, by simp, ?_⟩
+    · rw [convertArray_eq_map, if_pos hd]
+    · rw [convertArrayInplace_eq_map, if_pos hd]
+    · intro i h h'
+      unfold convert
+      simp [(sameDimension_iff a b).2 hd]
+  · intro hd
+    refine ⟨?_, ?_, fun x => dimension_checked a b hd x⟩
+    · rw [convertArray_eq_map, if_neg hd]
+    · rw [convertArrayInplace_eq_map, if_neg hd]
+
+/-- **Dimension check of the array forms**: different dimensions ⇒ both refuse with the units error and the
+in-place form leaves the caller's array as it was. -/
+theorem array_dimension_checked (xs : List ℚ) (a b : Unit ℚ) (h : a.dim ≠ b.dim) :
+    convertArray xs a b = .error .unitsDimension ∧ convertArrayInplace xs a b = .error .unitsDimension ∧
+      arrayAfterInplace xs a b = xs := by
+  have h2 : convertArrayInplace xs a b = .error .unitsDimension := by rw [convertArrayInplace_eq_map, if_neg h]
+  refine ⟨by rw [convertArray_eq_map, if_neg h], h2, ?_⟩
+  unfold arrayAfterInplace; rw [h2]
+
+/-- … and a list of numbers exactly when the dimensions agree. -/
+theorem convertArray_ok_iff (xs : List ℚ) (a b : Unit ℚ) :
+    (∃ ys, convertArray xs a b = .ok ys) ↔ a.dim = b.dim := by
+  rw [convertArray_eq_map]
+  by_cases hd : a.dim = b.dim <;> simp [hd]
+
+example : convertArray [0, 100] exDegC exDegF = .ok [32, 212] := by decide +kernel
+example : convertArrayInplace [12, 24] exFeet exInch = .ok [144, 288] := by decide +kernel
+example : convertArray [1] exFeet exDegC = .error .unitsDimension := by decide +kernel
 
 section anyNumberType
 variable {α : Type} [Add α] [Sub α] [Mul α] [Div α] [BEq α] [OfNat α 0]
 
-/-- In place and copying agree for **every** number type (no arithmetic law used: the same operations in the same
-order), hence bit for bit in binary64. -/
+/-- In place and copying agree for **every** number type (no arithmetic law used: the same check and the same
+operations in the same order), hence bit for bit in binary64. -/
 theorem convertArrayInplace_eq_convertArray (xs : List α) (a b : Unit α) :
     convertArrayInplace xs a b = convertArray xs a b := by
   unfold convertArrayInplace convertArray
   split
-  · simp only [List.map_map]; rfl
   · rfl
+  · split
+    · simp only [List.map_map]; rfl
+    · rfl
 
 /-- In the offset branch the array forms are `map` of the scalar form for **every** number type. -/
-theorem array_offset_branch_eq_map (xs : List α) (a b : Unit α) (h : (a.hasOffset || b.hasOffset) = true) :
-    convertArray xs a b = xs.map (fun x => convertRaw x a b) := by
+theorem array_offset_branch_eq_map (xs : List α) (a b : Unit α) (hd : sameDimension a b = true)
+    (h : (a.hasOffset || b.hasOffset) = true) :
+    convertArray xs a b = .ok (xs.map (fun x => convertRaw x a b)) := by
   unfold convertArray convertRaw
-  simp only [h, if_true]
+  simp only [hd, Bool.not_true, Bool.false_eq_true, if_false, h, if_true]
 
 end anyNumberType
 
-example : (exDegC.hasOffset || exDegK.hasOffset) = true := by decide +kernel
+example : sameDimension exDegC exDegK = true ∧ (exDegC.hasOffset || exDegK.hasOffset) = true := by decide +kernel
 
 /-! ## LIS: `LIS/core/Units.py` -/
 
